@@ -15,7 +15,29 @@ ENGINES = {
 NOT_APPLICABLE = {}   # id -> reason, for properties deliberately not claimed
 
 
+# extensions made after seeded changes showed gaps (DESIGN.md 8.4); appended to the level text of the check
+ADDENDA = {
+    "C01": "Families added later: root-argument predicates under numeric quantifiers, match expressions over the root nonterminal, SMT-level connectives in negative positions, conjunctions of count atoms.",
+    "C05": "Added later: re.range with bounds that are special in other regex dialects; two-variable nested atoms with variable names that vary from term to term.",
+    "C06": "Added later: a sibling grammar (same nonterminal names, other productions) evaluated after the original in the same interpreter; match expressions that elide a nullable nonterminal; evaluate() is also called without a prepared grammar graph.",
+    "C08": "Added later: sibling grammar with per-task history, XPath indices >= 10 on a 12-column row.",
+    "C10": "Added later: one parser object shared by all inputs of a case, with the lazily produced trees of an input drawn after the next parse has started.",
+    "C11": "Added later: histories (the same grammar printed and parsed earlier in the interpreter, the earlier result mutated or handed to ISLaSolver(text, start_symbol=...)), hex-escape look-alike terminal texts.",
+    "C12": "Added later: trees rooted in other nonterminals than <start>, a grammar with bracket-delimited terminals containing a blank; results nested deeper than 100 levels are unjudged (limit of TLC's JSON reader).",
+    "C13": "Added later: expansions naming one nonterminal twice, single-child chains as inserted trees, markup-like terminals, a re-entrant recursive grammar; every raising insert_tree call is repeated in a python -O interpreter (the implementation guards its results with assert).",
+    "C14": "Added later: a nullable and a non-nullable nonterminal sharing an alternative.",
+    "C16": "Added later: replace_path(retain_id=True) as a model action.",
+    "C17": "Added later: k-path caches filled on subtree objects before serialisation.",
+    "C18": "Added later: sessions for a transitively nullable grammar and a 40-column row.",
+    "C19": "Added later: grammars given as Python extension files, split over a .bnf and a .py file, and Python files whose grammar is not a grammar; inputs that satisfy exactly one of two constraint files.",
+    "C20": "Added later: sibling grammars (same nonterminal names, other productions) interleaved in one interpreter.",
+    "C21": "Added later: a CSV run with max_number_free_instantiations=10 (the setting of the project's evaluation script).",
+}
+
+
 def check(pid, engine, category, text, note, technique, design):
+    if ADDENDA.get(pid):
+        text = text + " " + ADDENDA[pid]
     CHECKS[pid] = {
         "property_id": pid, "quick_cmd": "./check %s --tier quick" % pid,
         "thorough_cmd": "./check %s --tier thorough" % pid, "evidence_file": "evidence/%s.json" % pid,
